@@ -1,11 +1,52 @@
 package main
 
+import (
+	"os"
+	"path/filepath"
+	"strings"
+)
+
 // gonumPkgs are the third-party packages whose map iteration the plain-graph
-// check (C17) has to own.
-var gonumPkgs = []string{}
+// check (C17) has to own: native `range <map>` statements are rewritten like
+// the repository's; the reflect-based iterators are replaced (staticOverlays).
+var gonumPkgs = []string{
+	"gonum.org/v1/gonum/graph/multi",
+	"gonum.org/v1/gonum/graph/topo",
+	"gonum.org/v1/gonum/graph/internal/set",
+	"gonum.org/v1/gonum/graph/traverse",
+}
 
 // staticOverlays returns hand-written replacement files for third-party code
 // (never copies of repository files, which would mask edits).
 func staticOverlays(mode string) map[string]string {
-	return map[string]string{}
+	out := map[string]string{}
+	if mode != "maps" {
+		return out
+	}
+	modcache := os.Getenv("GOMODCACHE")
+	if modcache == "" {
+		home, _ := os.UserHomeDir()
+		modcache = filepath.Join(home, "go", "pkg", "mod")
+	}
+	self, _ := os.Executable()
+	_ = self
+	static := filepath.Join(*verifDir, "instr", "static")
+	dir := filepath.Join(modcache, "gonum.org", "v1", "gonum@v0.16.0", "graph", "iterator")
+	for _, f := range []string{"nodes_map_safe.go", "lines_map_safe.go"} {
+		src := filepath.Join(static, "gonum_"+strings.TrimSuffix(f, ".go")+".go.txt")
+		if _, err := os.Stat(src); err != nil {
+			fatal("static overlay %s missing", src)
+		}
+		if _, err := os.Stat(filepath.Join(dir, f)); err != nil {
+			fatal("gonum iterator file %s not found in module cache", filepath.Join(dir, f))
+		}
+		// the overlay target must end in .go: copy next to the generated files
+		dst := filepath.Join(*outDir, "static_gonum_"+f)
+		b, _ := os.ReadFile(src)
+		if err := os.WriteFile(dst, b, 0o644); err != nil {
+			fatal("%v", err)
+		}
+		out[filepath.Join(dir, f)] = dst
+	}
+	return out
 }
